@@ -485,6 +485,28 @@ def run(repo: Repo, rep: Report, tier: str) -> None:
     _borrow10b(repo, rep, "C07", "C07-R3", "C10-R13", "the optimised build keeps every wire it plans: spanning-tree routing lays input->input wires between sinks, which are different "
                "wires from the output->input wire between the same two combinators", select=lambda o: "add_wire_connection" in o.construct, floor=1)
 
+    # ---------------- R14 --------------------------------------------------------------
+    rep.rule("C10-R14", "constant propagation folds scalar constants only: a node enters the pass's constant table (the table `.value` is read from) only if it is an IRConst without "
+             "member signals — a bundle constant has value 0 and several signals, folding `{...} * 2` through it yields the single constant 0")
+    from .util import cguards
+    cpo = repo.cls("ConstantPropagationOptimizer")
+    n14 = 0
+    for m14 in cpo.methods.values():
+        for st in walk_local(m14.node):
+            if isinstance(st, ast.Assign) and isinstance(st.targets[0], ast.Subscript) and isinstance(st.targets[0].value, ast.Name) and isinstance(st.value, ast.Name):
+                from .util import canon as _canon14
+                c14 = _canon14(m14)
+                if not (c14.text(st.value).startswith("ELEM(") and c14.text(st.targets[0].slice) == c14.text(st.value) + ".node_id"):
+                    continue
+                gs14 = cguards(m14, st)
+                if not any("IRConst" in g and pol for g, pol in gs14):
+                    continue
+                n14 += 1
+                ok14 = any(".signals" in g for g, pol in gs14)
+                rep.check(ok14, "C10-R14", f"{m14.short}: the constant table admits scalar constants only", "guarded by a test on `.signals`" if ok14 else
+                          f"every IRConst is admitted ({[g for g, p in gs14 if p][:1]}): `Bundle r = {{(\"signal-A\", 5), (\"signal-B\", 2)}} * 2;` is folded to signal-each = 0 with optimisation on", m14.loc(st))
+    rep.floor("C10-R14", "admissions to the constant table", n14, 1)
+
 
 
 def thorough(repo: Repo, rep: Report) -> None:
